@@ -8,6 +8,7 @@
   equation of `handleMessage_tsig_eq` as a hypothesis instead of an existential.
 -/
 import QV.Proofs.ServerSignedNoFit
+import QV.Proofs.ServerAnswerHdrLog
 
 namespace QV.ServerContent
 open QV QV.Wire QV.Reader QV.Writer QV.Server QV.ServerSafety QV.ServerScan QV.ServerAnswer QV.Spec.Resolve QV.Spec QV.ServerTsig
@@ -1052,6 +1053,297 @@ theorem tsigStopReply_prep {hm : Tsig.Algorithm → Tsig.Octets → Tsig.Octets 
     | (simp only [Option.some.injEq, Prod.mk.injEq] at h
        obtain ⟨rfl, _, rfl⟩ := h
        exact ⟨by omega, _, by omega, rfl⟩)
+
+
+/-! ### the answered, authenticated row: everything the audit needs -/
+
+/-- `signed_answer_state` for a given run -/
+theorem signed_answer_state_of_run (cfg : Cfg) (tr : Transport) (now bufLen : Nat) (req : Bytes)
+    (hbuf : minBuf tr cfg.payload ≤ bufLen) (hpay : 512 ≤ cfg.payload) (hp16 : cfg.payload ≤ 65535)
+    (hr : (Spec.Server.specScanWith (catKind cfg) cfg.payload req).respond = true)
+    (t : Tsig.ReadTsigRr) (mw : Bytes) (r' : Reader.Reader) (question : Option (WName × Nat × Nat))
+    (hrun : TsigRun cfg tr now bufLen req t mw r' question) :
+      ∀ r'' S, Server.tsigAfter cfg now t mw r' (preTsigState cfg tr bufLen req) = (.ok (some r''), S) →
+        endVerdict (catKind cfg) req.size (Spec.Server.specScanWith (catKind cfg) cfg.payload req).question
+          r'.cursor ((req.getD 2 0).toNat / 8 % 16) = .answer →
+      ∀ b, Server.handleMessage cfg tr now bufLen req = .ok (some b) →
+        ∃ q qn nowT alg key kn,
+          (Spec.Server.specScanWith (catKind cfg) cfg.payload req).question = some q ∧
+          WName.parse q.qname = some (qn, []) ∧
+          ¬ (251 ≤ q.qtype ∧ q.qtype ≤ 254) ∧ q.qclass ≠ 255 ∧ catKind cfg q.qname q.qclass = some .loaded ∧
+          Tsig.TimeSigned.tryFromUnix now = some nowT ∧
+          Tsig.Algorithm.fromName t.algorithm = some alg ∧ Server.findKey cfg.keys t.keyName alg = some key ∧
+          WName.parse t.keyName = some (kn, []) ∧
+          Tsig.verifyRequest Tsig.realHmac t mw.toList alg key.secret nowT = .ok () ∧
+          S = ServerTsig.withTsig (stRcode 0 (scanState cfg tr bufLen req (Spec.Server.hdr req 0)
+                (((req.getD 2 0).toNat &&& 120) >>> 3) (((req.getD 2 0).toNat &&& 1) != 0) q))
+              (.response (Server.toWriterAlg alg) t.mac key.secret) (ServerTsig.prepOf kn t nowT 0) ∧
+          Good S (qBody (some q)) ∧ QueryReady S qn ∧ HdrView S {} ∧
+          (∀ bb w1, (Server.handleQuery cfg (some (qn, q.qtype, q.qclass)) tr >>= fun _ => (pure true : M Bool)) S = (.ok bb, w1) →
+            w1.tsig = some (respTsig alg key kn t nowT) ∧
+            w1.edns.map (·.payload) =
+              (if (Spec.Server.specScanWith (catKind cfg) cfg.payload req).edns then some cfg.payload else none)) ∧
+          (.ok (some b) : Out Unit (Option Bytes)) =
+            match (Server.handleQuery cfg (some (qn, q.qtype, q.qclass)) tr >>= fun _ => (pure true : M Bool)) S with
+            | (.ok true, w1) =>
+              (match Writer.finish w1 Server.macFn with
+               | .ok (bytes, _) => .ok (some bytes)
+               | _ => .panic)
+            | (.ok false, _) => .ok none
+            | _ => .panic := by
+  obtain ⟨h1, h2, hqrel, h4⟩ := hrun
+  intro r'' S hT hev b hb
+  rw [hT, hb] at h4
+  simp only [afterTsig, hev, if_true] at h4
+  obtain ⟨_, _, hsce⟩ := specScanWith_respond _ _ _ hr
+  unfold preTsigState at hT
+  rw [hsce] at hT hqrel hev ⊢
+  obtain ⟨q, hq0, c1, c2, c3⟩ := endVerdict_answer _ _ _ _ _ hev
+  obtain ⟨nx, hsq⟩ := specBody_question (catKind cfg) cfg.payload req q hq0
+  obtain ⟨p, hp, hpw, _, _, hwl⟩ := specQuestionAt_some req 12 _ _ _ nx hsq
+  obtain ⟨qn, hqn, hqw⟩ := wname_of_parse req 12 p hp
+  rw [hpw] at hqn hqw
+  rw [hq0] at hqrel
+  cases question with
+  | none => exact absurd hqrel (by simp [QRel])
+  | some qq =>
+    obtain ⟨qn', qt, qc⟩ := qq
+    obtain ⟨hqn', hqt, hqc⟩ := hqrel
+    have : qn = qn' := by rw [hqn] at hqn'; cases hqn'; rfl
+    subst this
+    subst hqt hqc
+    obtain ⟨gS, hqrS, hvS, h3S⟩ := scanState_facts cfg tr bufLen req hbuf hpay hp16 (Spec.Server.hdr req 0)
+      (((req.getD 2 0).toNat &&& 120) >>> 3) (((req.getD 2 0).toNat &&& 1) != 0) q qn nx hsq hqn hqw hwl
+    obtain ⟨_, p2, p3⟩ := specBody_props (catKind cfg) cfg.payload req
+    have hq : ∀ x, (specBody (catKind cfg) cfg.payload req).question = some x →
+        ∃ nx, Spec.specQuestionAt req 12 = some (x.qname, x.qtype, x.qclass, nx) :=
+      fun x hx => specBody_question (catKind cfg) cfg.payload req x hx
+    obtain ⟨hbase, hcur, _, _, _, h30, hs3, _, _, _, _, _, hrrs, hsz⟩ :=
+      s1_facts bufLen tr cfg.payload (Spec.Server.hdr req 0) (((req.getD 2 0).toNat &&& 120) >>> 3)
+        (((req.getD 2 0).toNat &&& 1) != 0) hbuf hpay req (specBody (catKind cfg) cfg.payload req).question hq
+    rw [hq0] at hT hbase hs3 hsz h30 hcur hrrs
+    unfold Server.tsigAfter at hT
+    cases hnow : Tsig.TimeSigned.tryFromUnix now with
+    | none => rw [hnow] at hT; cases hT
+    | some nowT =>
+      rw [hnow] at hT
+      simp only at hT
+      have h12s : 12 ≤ (scanState cfg tr bufLen req (Spec.Server.hdr req 0)
+          (((req.getD 2 0).toNat &&& 120) >>> 3) (((req.getD 2 0).toNat &&& 1) != 0) q).octets.size := by
+        show 12 ≤ (arSt _ tr cfg.payload _ _).octets.size
+        rw [arSt_size, hsz]; cases tr <;> simp only [minBuf] at hbuf <;> omega
+      obtain ⟨alg, key, kn, ha, hk, hkn, hver, _, hfit, hS⟩ :=
+        tsigProcess_some_state Tsig.realHmac cfg.keys _ h12s t mw.toList nowT r' r'' S hT
+      obtain ⟨hX, _⟩ := sigSt_facts _ tr cfg.payload (specBody (catKind cfg) cfg.payload req).edns
+        (specBody (catKind cfg) cfg.payload req).limitUdp 0 0 (by omega) (by omega)
+        hbase h30 hs3 p2 p3 (.response (Server.toWriterAlg alg) t.mac key.secret) (ServerTsig.prepOf kn t nowT 0)
+      have gB := good_stRcode 0 _ _ gS h3S
+      obtain ⟨l1, l2⟩ := prepOf_lengths kn t nowT 0
+      have hfit' := (stRcode_fits 0 _ _ _).mpr hfit
+      have gC := good_withTsig (.response (Server.toWriterAlg alg) t.mac key.secret) (ServerTsig.prepOf kn t nowT 0) _ _ gB
+        hfit' (parse_wf hkn) (algName_wf _) l1 l2
+      have hqr := queryReady_withTsig _ qn hqrS (.response (Server.toWriterAlg alg) t.mac key.secret)
+        (ServerTsig.prepOf kn t nowT 0) hfit' ⟨parse_wf hkn, algName_wf _, l1, l2⟩
+      have hhv := hdrView_withTsig _ h3S hvS (.response (Server.toWriterAlg alg) t.mac key.secret)
+        (ServerTsig.prepOf kn t nowT 0)
+      have hSrr : S.rrStart = (qSt (hdrSt (w0 bufLen (lim0 tr)) (Spec.Server.hdr req 0)
+          (((req.getD 2 0).toNat &&& 120) >>> 3) (((req.getD 2 0).toNat &&& 1) != 0)) (some q)).rrStart := by
+        rw [hS]
+        show (stRcode 0 (arSt _ tr cfg.payload _ _)).rrStart = _
+        have : ∀ x : State, (stRcode 0 x).rrStart = x.rrStart := by
+          intro x; unfold stRcode stHdr; cases x.edns <;> rfl
+        rw [this]
+        cases (specBody (catKind cfg) cfg.payload req).edns <;> cases tr <;> rfl
+      have hX' := hX
+      rw [← hS] at hX'
+      have hfr := framed_bind (k := true) (Server.framed_handleQuery 12 (by omega) cfg (some (qn, q.qtype, q.qclass)) tr)
+        (fun _ => framed_pure 12 true) S (by rw [hX'.cur, hcur]; omega) (by rw [hSrr, hrrs]; omega)
+      refine ⟨q, qn, nowT, alg, key, kn, hq0, hqn, c1, c2, c3, rfl, ha, hk, hkn, hver, hS, by rw [hS]; exact gC,
+        by rw [hS]; exact hqr, by rw [hS]; exact hhv, ?_, h4⟩
+      intro bb w1 hres
+      rw [hres] at hfr
+      obtain ⟨k1, k2⟩ := hfr.keep rfl
+      simp only at k1 k2
+      refine ⟨by rw [k1, hX'.tsig]; rfl, ?_⟩
+      rw [k2, hX'.edns]
+      cases (specBody (catKind cfg) cfg.payload req).edns <;> rfl
+
+
+
+theorem ednsUp0_stRcode (rc : Nat) (s : State) : EdnsUp0 (stRcode rc s) := by
+  intro x hx
+  unfold stRcode at hx
+  simp only at hx
+  cases he : (stHdr 3 (fun b => (b &&& ~~~ (15 : UInt8)) ||| UInt8.ofNat rc) s).edns with
+  | none => rw [he] at hx; simp only at hx; rw [he] at hx; cases hx
+  | some e0 => rw [he] at hx; simp only [Option.some.injEq] at hx; subst hx; rfl
+
+/-- **the writer handed to `finish` for an authenticated request that a loaded zone answers**, with
+    everything the audit of the response needs: `Good` with a body that is — record for record — a view
+    `v`; the header shows `v`; `v`'s RCODE is 0, 2 or 3; TC only over UDP and then with empty sections;
+    own additional records are address records; the response TSIG is pending; the EDNS slot is set iff
+    the scan reached an OPT, with the server's payload size and extended-RCODE octet 0 -/
+theorem signed_answer_facts_of_run (cfg : Cfg) (hcfg : CfgWF cfg) (tr : Transport) (now bufLen : Nat) (req : Bytes)
+    (hbuf : minBuf tr cfg.payload ≤ bufLen) (hpay : 512 ≤ cfg.payload) (hp16 : cfg.payload ≤ 65535)
+    (hr : (Spec.Server.specScanWith (catKind cfg) cfg.payload req).respond = true)
+    (t : Tsig.ReadTsigRr) (mw : Bytes) (r' : Reader.Reader) (question : Option (WName × Nat × Nat))
+    (hrun : TsigRun cfg tr now bufLen req t mw r' question) :
+    ∀ r'' S, Server.tsigAfter cfg now t mw r' (preTsigState cfg tr bufLen req) = (.ok (some r''), S) →
+      endVerdict (catKind cfg) req.size (Spec.Server.specScanWith (catKind cfg) cfg.payload req).question
+        r'.cursor ((req.getD 2 0).toNat / 8 % 16) = .answer →
+    ∀ b, Server.handleMessage cfg tr now bufLen req = .ok (some b) →
+      ∃ nowT alg key kn F mac bd v, Tsig.TimeSigned.tryFromUnix now = some nowT ∧
+        Tsig.Algorithm.fromName t.algorithm = some alg ∧ Server.findKey cfg.keys t.keyName alg = some key ∧
+        WName.parse t.keyName = some (kn, []) ∧
+        Tsig.verifyRequest Tsig.realHmac t mw.toList alg key.secret nowT = .ok () ∧
+        Writer.finish F Server.macFn = .ok (b, mac) ∧ Good F bd ∧ (∀ r ∈ bd.ar, r.ty = 1 ∨ r.ty = 28) ∧
+        BodyView bd v ∧ HdrView F v ∧ (v.rcode = 0 ∨ v.rcode = 2 ∨ v.rcode = 3) ∧
+        (v.tc = true → tr = .udp ∧ v.answer = [] ∧ v.authority = [] ∧ v.additional = []) ∧
+        F.tsig = some (respTsig alg key kn t nowT) ∧
+        F.edns.map (·.payload) =
+          (if (Spec.Server.specScanWith (catKind cfg) cfg.payload req).edns then some cfg.payload else none) ∧
+        EdnsUp0 F := by
+  intro r'' S hT hev b hb
+  obtain ⟨q, qn, nowT, alg, key, kn, hq0, hqn, c1, c2, c3, e1, e2, e3, e4, e5, hS, gS, hqrS, hvS, hkeep, h4⟩ :=
+    signed_answer_state_of_run cfg tr now bufLen req hbuf hpay hp16 hr t mw r' question hrun r'' S hT hev b hb
+  have huS : EdnsUp0 S := by
+    rw [hS]
+    exact ednsUp0_of_eq (ednsUp0_stRcode 0 _) rfl
+  unfold catKind at c3
+  rw [hqn] at c3
+  simp only at c3
+  cases hl : Catalog.lookup (mkCatalog cfg.zones) qn.labels q.qclass with
+  | none => rw [hl] at c3; cases c3
+  | some e =>
+    rw [hl] at c3
+    simp only [Option.map_some, Option.some.injEq] at c3
+    have hk : e.kind = .Loaded := by
+      cases hk : e.kind <;> rw [hk] at c3 <;> first | rfl | cases c3
+    obtain ⟨ze, hze, _, _, hsuf⟩ := mkCatalog_lookup cfg.zones qn.labels q.qclass e hl
+    obtain ⟨hawf, haeq, hnode⟩ := hcfg.zones ze (List.mem_of_getElem? hze)
+    have hz : ZoneOK ze.zone := ⟨by rw [haeq]; exact fold_wf _ hawf, hnode⟩
+    have hsub : ze.zone.apex <:+ fold qn := by rw [haeq]; exact hsuf
+    have hHQ := handleQuery_loaded cfg tr qn q.qtype q.qclass S c1 c2 e hl hk ze hze
+    have hnp := (handleNonAxfrQueryL_safe Writer.writerSafe ze.zone hz qn (parse_wf hqn) q.qtype tr hsub ⟨S, []⟩
+      gS.1 hqrS.hint).1
+    have hG := good_handleNonAxfrQueryL ze.zone hz qn (parse_wf hqn) q.qtype tr hsub _ _ gS hqrS.hint
+    have hH := hdr_handleNonAxfrQueryL ze.zone hz qn (parse_wf hqn) q.qtype tr hsub _ _ gS hqrS.hint hvS
+    have hty := bodyOf_handle_ar_types ze.zone qn q.qtype tr S (qBody (some q)) (qBody_norecs _) hnp
+    have hBV := bodyOf_view (qBody (some q)) (qBody_norecs _) (handleNonAxfrQueryL ze.zone qn q.qtype tr ⟨S, []⟩).2.log
+    obtain ⟨hfl1, hfl2⟩ := view_handle_flags ze.zone qn q.qtype tr S hnp
+    obtain ⟨gI, gl, gmb, gc⟩ := gS
+    have hU := ednsUp0_handleNonAxfrQueryL ze.zone hz qn (parse_wf hqn) q.qtype tr hsub S gI hqrS.hint gl gmb _ gc huS
+    have hst : ((handleQuery cfg (some (qn, q.qtype, q.qclass)) tr >>= fun _ => (pure true : M Bool)) S).2 =
+        (handleNonAxfrQueryL ze.zone qn q.qtype tr ⟨S, []⟩).2.w := by
+      rw [Writer.bind_apply, hHQ, ← handleNonAxfrQuery_state]
+      rcases handleNonAxfrQuery ze.zone qn q.qtype tr _ with ⟨(u | x | _), s'⟩ <;> rfl
+    rcases hh : (handleQuery cfg (some (qn, q.qtype, q.qclass)) tr >>= fun _ => (pure true : M Bool)) S
+      with ⟨(bb | x | _), w1⟩
+    · rw [hh] at h4 hst
+      obtain ⟨hts, he⟩ := hkeep bb w1 hh
+      simp only at hst
+      subst hst
+      cases bb with
+      | false => simp only at h4; cases h4
+      | true =>
+        simp only at h4
+        rcases hf : Writer.finish _ Server.macFn with ⟨bytes, mac⟩ | x | _
+        · rw [hf] at h4
+          simp only [Out.ok.injEq, Option.some.injEq] at h4
+          subst h4
+          exact ⟨nowT, alg, key, kn, _, mac, _, _, e1, e2, e3, e4, e5, hf, hG, hty, hBV, hH, hfl1, hfl2, hts, he, hU⟩
+        · rw [hf] at h4; cases h4
+        · rw [hf] at h4; cases h4
+    · rw [hh] at h4; cases h4
+    · rw [hh] at h4; cases h4
+
+
+theorem all2_snoc_left {α β : Type} {R : α → β → Prop} : ∀ (as : List α) (bs : List β) (b : β),
+    All2 R as (bs ++ [b]) → ∃ as' a, as = as' ++ [a] ∧ All2 R as' bs ∧ R a b := by
+  intro as
+  induction as with
+  | nil => intro bs b h; cases bs <;> cases h
+  | cons x r ih =>
+    intro bs b h
+    cases bs with
+    | nil =>
+      cases h with
+      | cons hr t => cases t; exact ⟨[], x, rfl, .nil, hr⟩
+    | cons y ys =>
+      cases h with
+      | cons hr t =>
+        obtain ⟨as', a, e, h1, h2⟩ := ih ys b t
+        exact ⟨x :: as', a, by rw [e]; rfl, .cons hr h1, h2⟩
+
+/-- **an answer with a TSIG record, decoded**: header and answer / authority sections as the view
+    says; the additional section is the view's (address records), then the OPT (iff set, extended-RCODE
+    octet 0), then — last — the TSIG record, whose owner is the key name up to case and whose RDATA
+    reads back field by field -/
+theorem decoded_answer_tsig (F : State) (bd : Body) (v : View) (hG : Good F bd)
+    (hty : ∀ r ∈ bd.ar, r.ty = 1 ∨ r.ty = 28) (hbv : BodyView bd v) (hh : HdrView F v)
+    (ts : Writer.Tsig) (hts : F.tsig = some ts) (hwf : (tsigAlgName ts.mode).WF)
+    (l1 : ts.rr.timeSigned.length = 6) (l2 : ts.rr.serverTime.length = 6) (hup : EdnsUp0 F)
+    (b : Bytes) (mac : Option (List UInt8)) (hf : Writer.finish F Server.macFn = .ok (b, mac))
+    (d : DMsg) (hd : specDecodeMsg b = some d) :
+    d.rcode = v.rcode % 16 ∧ d.aa = v.aa ∧ d.tc = v.tc ∧
+    All2 RRMatch v.answer d.an ∧ All2 RRMatch v.authority d.ns ∧
+    (∀ x ∈ d.ar, x.ty = 41 → x.rawTtl / 16777216 = 0) ∧
+    ∃ ar' opt o, d.ar = ar' ++ opt ++ [o] ∧ All2 RRMatch v.additional ar' ∧
+      (∀ x ∈ ar', x.ty = 1 ∨ x.ty = 28) ∧ (∀ x ∈ opt, x.ty = 41) ∧
+      o.ty = 250 ∧ o.cls = 255 ∧ o.rawTtl = 0 ∧
+      o.owner.map lowerU8 = ts.rr.keyName.wire.map lowerU8 ∧
+      Spec.Tsig.parseRdata o.rdata = some ⟨(tsigAlgName ts.mode).labels, Spec.Tsig.nat48 ts.rr.timeSigned,
+        ts.rr.fudge % 65536, mac.getD [], ts.rr.originalId % 65536, ts.rr.error % 65536,
+        if ts.rr.error = XR_BADTIME then ts.rr.serverTime else []⟩ := by
+  obtain ⟨g1, g2, g3, rest, o, q1, q2, q3, q4, q5⟩ := tsig_fields_of_good F _ hG ts hts hwf l1 l2 v hh b mac hf d hd
+  obtain ⟨rest', o', q1', _, _, _, q6, _, _, _⟩ := tsig_of_good Server.macFn F _ hG ts hts b mac hf d hd
+  rw [q1] at q1'
+  obtain ⟨er, eo⟩ := List.append_inj' q1' rfl
+  simp only [List.cons.injEq, and_true] at eo
+  subst er; subst eo
+  obtain ⟨_, c2, _, _⟩ := opt_of_good Server.macFn F _ hG hty b mac hf d hd
+  obtain ⟨hI, hlim, mb, hL⟩ := hG
+  have hsz : b.size ≤ 65535 := Nat.le_trans (finish_size_le_limit Server.macFn F hI.inv b mac hf) hlim
+  obtain ⟨d', qs, ian, ins, iar, hd', _, e2, e3, e4, _, m2, m3, m4, _, _⟩ :=
+    finish_decodes_content Server.macFn F bd mb hI hL b mac hf hsz
+  rw [hd] at hd'
+  cases hd'
+  obtain ⟨v1, v2, v3⟩ := hbv
+  rw [q1] at m4
+  obtain ⟨iar', it, rfl, m4', _⟩ := all2_snoc_left _ _ _ m4
+  rw [hts] at e4
+  simp only [tsigRecs, List.map_append, List.map_cons, List.map_nil] at e4
+  have e4' : iar'.map (·.r) = bd.ar ++ optRecs' F.edns := (List.append_inj' e4 rfl).1
+  obtain ⟨t1, t2⟩ := map_take_eq (·.r) iar' bd.ar (optRecs' F.edns) e4'
+  have hsplit : iar' = iar'.take bd.ar.length ++ iar'.drop bd.ar.length := (List.take_append_drop _ _).symm
+  rw [hsplit] at m4'
+  obtain ⟨d1, d2, hd12, a1, a2⟩ := all2_append_left _ _ _ m4'
+  have hm1 : (iar'.take bd.ar.length).map (fun it => recRR it.r) = v.additional.map clampTtl := by
+    have : (iar'.take bd.ar.length).map (fun it => recRR it.r) = ((iar'.take bd.ar.length).map (·.r)).map recRR := by
+      rw [List.map_map]; rfl
+    rw [this, t1, v3]
+  refine ⟨g1, g2, g3, all2_rrmatch ian _ _ (by rw [← v1, ← e2, List.map_map]; rfl) m2,
+    all2_rrmatch ins _ _ (by rw [← v2, ← e3, List.map_map]; rfl) m3, ?_, d1, d2, o, by rw [q1, hd12],
+    all2_rrmatch _ _ _ hm1 a1, ?_, ?_, q2, q3, q4, q6, q5⟩
+  · intro x hx hty41
+    obtain ⟨ee, hee, _, _, hr⟩ := c2 x hx hty41
+    rw [hr, hup ee hee]
+  · intro x hx
+    obtain ⟨it', hit, hm⟩ := all2_mem_right a1 x hx
+    have : it'.r ∈ bd.ar := by rw [← t1]; exact List.mem_map.mpr ⟨it', hit, rfl⟩
+    rw [hm.2.2.1]
+    rcases hty _ this with h | h <;> rw [h] <;> simp
+  · intro x hx
+    obtain ⟨it', hit, hm⟩ := all2_mem_right a2 x hx
+    have : it'.r ∈ optRecs' F.edns := by rw [← t2]; exact List.mem_map.mpr ⟨it', hit, rfl⟩
+    cases hed : F.edns with
+    | none => rw [hed] at this; simp [optRecs'] at this
+    | some e =>
+      rw [hed] at this
+      simp only [optRecs', List.mem_singleton] at this
+      rw [hm.2.2.1, this]
+      show Writer.T_OPT % 65536 = 41
+      rw [T_OPT_eq]
 
 
 end QV.ServerContent
